@@ -113,7 +113,7 @@ theorem sd_readExpr : ∀ skip mode ts e rest, readExpr (f+1) skip false mode ts
                   have hsplit := skipBody_split _ _ _ _ hb
                   obtain ⟨e5, r'', rfl, h5, hfl⟩ := hy1.skipFive (strip s) (hsub _ hskip) vb r1 hsplit hs
                   simp only [rep, Bool.and_eq_true] at hrep
-                  obtain ⟨sp, o, t, cc, a2', a3, a4, hts, has, hok, htk, w2, w3, w4, hrun⟩ := run hrep.1.1
+                  obtain ⟨sp, o, t, cc, a2', a3, a4, hts, has, hok, htk, w2, w3, w4, hrun⟩ := run hrep.1
                   refine ⟨.venv c n ⟨sp, o, t, cc⟩ a2' a3 a4 vb e5, ?_, ?_, ?_⟩
                   · simp only [toks, List.cons_append, List.append_assoc]
                     rw [List.drop_left' h5, ← hsplit, htk]
@@ -136,8 +136,8 @@ theorem sd_readExpr : ∀ skip mode ts e rest, readExpr (f+1) skip false mode ts
             · -- an ordinary environment
               rw [if_neg hskip] at h
               obtain ⟨body, rfl⟩ := readEnv_shape h
-              simp only [rep, Bool.and_eq_true, Bool.or_eq_true, bne_iff_ne, ne_eq] at hrep
-              obtain ⟨⟨hra, hpf⟩, hrb⟩ := hrep
+              simp only [rep, Bool.and_eq_true] at hrep
+              obtain ⟨hra, hrb⟩ := hrep
               obtain ⟨sp, o, t, cc, a2', a3, a4, hts, has, hok, htk, w2, w3, w4, hrun⟩ := run hra
               have hmode' : (if memStr (strip s) Tables.mathEnvNames = true then Mode.math else mode) =
                   envMode (strip s) mode := rfl
@@ -153,10 +153,7 @@ theorem sd_readExpr : ∀ skip mode ts e rest, readExpr (f+1) skip false mode ts
                     intro body' hb'
                     simp only [Expr.nenv.injEq, true_and, and_true] at hb'
                     subst hb'
-                    refine ⟨hrb, fun hm => ?_⟩
-                    rcases hpf with h' | h'
-                    · exact absurd hm h'
-                    · exact h')
+                    exact hrb)
               refine ⟨.env c n ⟨sp, o, t, cc⟩ a2' a3 a4 b esc2 en nm2, ?_, ?_, ?_⟩
               · simp only [toks, List.cons_append, List.append_assoc]
                 rw [htk5, htk]
